@@ -16,6 +16,7 @@ def main(pid, tier, repo=None):
         proto.rule_placeholder(ctx, infos)
         proto.rule_writers(ctx, infos)
         proto.rule_nolock(ctx, infos)     # a guard held across a call that locks the same handle never returns
+        proto.rule_publish_success(ctx)
     ctx.assume("unwind edges are excluded: a panic inside the render closure is out of scope (C01 is the property about panics)")
     ctx.not_decided("that a later successful call yields the samples of a never-failed decode (value-level)")
     return ctx.finish(
